@@ -17,22 +17,42 @@ def _ret_exprs(view):
     for cs in view.calls('FromResidual::from_residual', 'from_residual'):
         if cs.dest['l'] == 0:
             work.append(cs.arg(0))
-    depth = 0
-    while work and depth < 200:
-        depth += 1
-        e = work.pop()
-        k = repr(e)
-        if k in seen:
-            continue
-        seen.add(k)
+    for e in work:
         out.append(e)
-        for x in subexprs(e):
-            if x[0] == 'var' and not x[2]:
-                for _, ie in var_inits(view, x[1]):
-                    work.append(ie)
-            elif x[0] == 'phi':
-                for _, ie in view.phi_defs(x[1]):
-                    work.append(ie)
+    return out
+
+
+_CTOR = {}
+
+
+def ctor_variant(F, ctor_name):
+    """`new_user_initiated_disconnect` -> `UserInitiatedDisconnect` (from the constructor's body)."""
+    if ctor_name in _CTOR:
+        return _CTOR[ctor_name]
+    v = None
+    for cv in F.find_fns('error::GneissError::' + ctor_name):
+        for _, e in prims.ret_variants(cv):
+            if e[0] == 'agg' and e[1].endswith('GneissError'):
+                v = e[2]
+    _CTOR[ctor_name] = v
+    return v
+
+
+def passthrough_params(F, view):
+    """[(param index, {error variants mapped to Ok})] for parameters the function may return."""
+    out = []
+    names = {view.varnames.get(i): i - 1 for i in range(1, view.argc + 1)}
+    rets = prims.ret_variants(view)
+    for b, e in rets:
+        if e[0] == 'var' and not e[2] and e[1] in names:
+            filtered = set()
+            for b2, e2 in rets:
+                if e2[0] == 'agg' and e2[2] == 'Ok':
+                    for g in prims.guard_strs(view, b2):
+                        m = re.match(r'^' + re.escape(e[1]) + r'@Err\.0 is ([\w|]+)$', g)
+                        if m:
+                            filtered |= set(m.group(1).split('|'))
+            out.append((names[e[1]], filtered))
     return out
 
 
@@ -49,10 +69,29 @@ def origins(F, view, _memo=None, _stack=None):
     PASS = ('Try::branch', 'FromResidual::from_residual', 'error::fold_mqtt_result', 'From::from', 'Into::into', 'Result::map_err',
             'Iterator::fold', 'Result::and', 'Result::or', 'Result::and_then')
 
+    seen_vars = set()
+
     def walk(e, d=0):
-        if d > 30 or e is None:
+        if d > 40 or e is None:
             return
         k = e[0]
+        if k == 'var' and not e[2]:
+            if e[1] in seen_vars:
+                return
+            seen_vars.add(e[1])
+            for _, ie in var_inits(view, e[1]):
+                walk(ie, d + 1)
+            seen_vars.discard(e[1])
+            return
+        if k == 'phi':
+            key = ('phi', e[1])
+            if key in seen_vars:
+                return
+            seen_vars.add(key)
+            for _, ie in view.phi_defs(e[1]):
+                walk(ie, d + 1)
+            seen_vars.discard(key)
+            return
         if k == 'call':
             fn = e[1]
             sh = short(fn)
@@ -71,6 +110,20 @@ def origins(F, view, _memo=None, _stack=None):
                     ty = cv.locals[0]['ty']
                     if 'GneissError' in ty or 'Result' in ty:
                         out.update(origins(F, cv, _memo, _stack))
+                        # a callee that may return one of its parameters passes that argument's
+                        # origins through, except the error variants it explicitly maps to Ok
+                        for pi, filtered in passthrough_params(F, cv):
+                            if pi < len(e[2]):
+                                sub = set()
+                                saved = set(out)
+                                out.clear()
+                                walk(e[2][pi], d + 1)
+                                sub = set(out)
+                                out.clear()
+                                out.update(saved)
+                                for o in sub:
+                                    if ctor_variant(F, o[1]) not in filtered:
+                                        out.add(o)
             return
         if k == 'agg':
             if e[1] == '(closure)':
